@@ -166,6 +166,34 @@ long ext2fs_free_mem(void *ptr)
 	return 0;
 }
 static struct ea_refcount RC;	/* the container of the harness (its list is the object the stubs below speak about) */
+#ifdef EA_EXACT_LIBC
+/* bounded units: exact realloc (libc model of CBMC) and an exact entry-wise memmove (overlap-safe, as the standard demands) */
+long ext2fs_resize_mem(unsigned long old_size, unsigned long size, void *ptr)
+{
+	void **pp = (void **) ptr;
+	void *p = realloc(*pp, size);
+	(void) old_size;
+	if (!p)
+		return EXT2_ET_NO_MEMORY;
+	*pp = p;
+	return 0;
+}
+void *ea_memmove(void *dst, const void *src, size_t n)
+{
+	struct ea_refcount_el *d = (struct ea_refcount_el *) dst;
+	const struct ea_refcount_el *s = (const struct ea_refcount_el *) src;
+	size_t cnt = n / sizeof(*d), x;
+
+	__CPROVER_assert(n % sizeof(*d) == 0, "memmove: whole entries");
+	if (d < s)
+		for (x = 0; x < cnt; x++)
+			d[x] = s[x];
+	else
+		for (x = cnt; x > 0; x--)
+			d[x - 1] = s[x - 1];
+	return dst;
+}
+#else
 long ext2fs_resize_mem(unsigned long old_size, unsigned long size, void *ptr)
 {
 	struct ea_refcount_el **pp = (struct ea_refcount_el **) ptr, *old = *pp, *new;
@@ -214,6 +242,7 @@ void *ea_memmove(void *dst, const void *src, size_t n)
 		base[ea_gI] = keep;
 	return dst;
 }
+#endif
 
 /* ------------------------------------------------------------------ spec functions and contracts (struct ea_refcount is now known) */
 
